@@ -621,10 +621,67 @@ def run(ck: Check):
     models = coq_eval("C14", HDR, [coq_case(c) for c in cases], shard=400)
     for case, recs, m in zip(cases, impl, models):
         compare_case(ck, case, recs, m, funcs_m)
+    run_compare_options(ck)
     ck.notes.append(
         "array-like non-ndarrays (objects exposing .shape) are not type-checked by compare in any class; they are compared "
         "with the model (which predicts exactly that) but not flagged: the brief lists lists/None/scalars as the non-array inputs"
     )
+
+
+# options a detector accepts at compare time: a compare that passes one must not change what later compares return
+COMPARE_OPTIONS = {
+    "EMD": [dict(v_weights="w"), dict(u_weights="u")],
+    "EnergyDistance": [dict(v_weights="w")],
+    "KSTest": [dict(alternative="less"), dict(method="asymp")],
+    "MannWhitneyUTest": [dict(alternative="less"), dict(use_continuity=False)],
+    "WelchTTest": [dict(alternative="greater")],
+    "CVMTest": [dict(method="asymptotic")],
+    "AndersonDarlingTest": [dict(midrank=False)],
+    "BWSTest": [dict(alternative="less")],
+    "ChiSquareTest": [dict(correction=False), dict(lambda_="log-likelihood")],
+    "JS": [dict(base=2.0)],
+}
+
+
+def run_compare_options(ck):
+    """compare(Y); compare(Y, option); compare(Y): the first and third results are equal and the option leaves no
+    trace in the detector (deep snapshot)."""
+    from frouros.detectors.data_drift import batch
+
+    rng = ck.rng
+    nprng = np.random.RandomState(rng.randrange(2**31))
+    ck.rule("compare-time options (EMD/energy weights, alternative, method, correction, midrank, base): compare(Y), compare(Y, option), compare(Y) on one detector - results 1 and 3 equal, detector snapshot unchanged by the option call")
+    for name, opts in COMPARE_OPTIONS.items():
+        cls = getattr(batch, name, None)
+        if cls is None:
+            continue
+        for opt in opts:
+            if name == "ChiSquareTest":
+                X, Y = nprng.choice(list("abc"), 12), nprng.choice(list("abc"), 9)
+            elif name == "BWSTest":
+                X, Y = nprng.normal(0, 1, 6), nprng.normal(0.5, 1, 6)
+            else:
+                X, Y = nprng.normal(0, 1, 12), nprng.normal(0.5, 1, 9)
+            kw = {k: (np.linspace(1, 2, len(Y)) if v == "w" else (np.linspace(1, 2, len(X)) if v == "u" else v)) for k, v in opt.items()}
+            d = cls()
+            detail = dict(detector=name, option={k: (v if isinstance(v, (str, bool, float, int)) else "array") for k, v in kw.items()}, X_ref=[str(v) for v in X], X_test=[str(v) for v in Y])
+            try:
+                d.fit(X=X)
+                r1 = canon(d.compare(X=Y)[0])
+                s1 = snap(d)
+                d.compare(X=Y, **kw)
+                s2 = snap(d)
+                r3 = canon(d.compare(X=Y)[0])
+            except Exception as e:  # noqa: BLE001
+                ck.count("compare_option_calls_raising")
+                ck.notes.append(f"compare option {name} {list(opt)} raised {type(e).__name__} (not judged by C14)")
+                continue
+            ck.case(dict(kind="compare-option", **{k: v for k, v in detail.items() if k in ("detector", "option")}), nontrivial=True, key=repr((name, sorted(opt))))
+            ck.count("compare_option_cases")
+            if s1 != s2:
+                ck.violation(dict(clause="pure", cause="compare-option", detector=name), dict(what="a compare call with an option changed the detector (deep snapshot differs)", **detail))
+            elif not same_out(("ok", r1), ("ok", r3)):
+                ck.violation(dict(clause="repeatable", cause="compare-option", detector=name), dict(what="compare(Y) before and after a compare(Y, option) differ", first=r1, third=r3, **detail))
 
 
 def main(tier, seed):
